@@ -12,6 +12,7 @@ import Gedcom.Props.C01
 import Gedcom.Lemmas.Regex
 import Gedcom.Lemmas.MultiLineLegal
 import Gedcom.Lemmas.RegexSound
+import Gedcom.Generated.DecodeLogic
 namespace Gedcom.C02
 open Gedcom Gedcom.Dec
 
@@ -321,5 +322,135 @@ example :
 /-- non-vacuity: `1 @@ X` is rejected (empty pointer; `\w+` cannot start at `@`) -/
 example : (Regex.find Generated.lineRegex [49, 32, 64, 64, 32, 88]).map Regex.fields = none := by
   decide
+
+/-! ## Where a line goes: the level arithmetic is the source's
+
+`Generated/DecodeLogic.lean` is translated on every run from the go/ast expressions of
+`Decoder.Decode`: the root test, the over-deep test with its clamp / error / panic branches, the
+parent index, and the three cases of the switch with their slice operations
+(`append(indents, node)`, `indents[:indent+1]`, `indents[indent] = node`).
+`DecodeLogic.srcDecide` interprets them in source order on the numbers `indent`, `len(indents)`. -/
+
+/-- the translated pieces, collected -/
+def sourcePieces : DecodeLogic.Pieces :=
+  ⟨Generated.rootCond, Generated.overCond, Generated.clampCond, Generated.clampValue,
+   Generated.errorCond, Generated.panicOtherwise, Generated.parentIndex, Generated.switchCases,
+   Generated.switchDefault⟩
+
+/-- **Obligation**: every expression and slice operation was inside the translator's fragment, and
+    the over-deep branch ends in the documented panic -/
+theorem decode_logic_translated : sourcePieces.ok = true := by decide
+
+/-- **The three cases of the switch are one rule.** For every level `indent ≥ 0` and every number
+    `len ≥ 0` of open levels, interpreting the source's conditions and slice operations gives: a
+    root record at level 0; for an over-deep line the clamp to `len` (node stored at index `len`
+    below parent `len - 1`), the error when nothing is open, or the panic, according to the
+    option; otherwise the node is stored at index `indent`, its parent is `indents[indent-1]`, and
+    `indents` ends up with `indent + 1` entries — whether the source appended, truncated or
+    replaced.  No slice operation is ever out of bounds. -/
+theorem srcDecide_eq_model (indent len : Int) (allow : Bool) (hi : 0 ≤ indent) (hl : 0 ≤ len) :
+    DecodeLogic.srcDecide sourcePieces indent len allow = DecodeLogic.modelDecide indent len allow := by
+  have defs : ∀ i : Int, DecodeLogic.selectOps i len allow Generated.switchDefault Generated.switchCases =
+      if i ≥ len then [.append] else if i < len - 1 then
+        [.truncate (.add .indent (.lit 1)), .set .indent] else [.set .indent] := by
+    intro i
+    by_cases a : i ≥ len <;> by_cases b : i < len - 1 <;>
+      simp [a, b, Generated.switchCases, Generated.switchDefault, DecodeLogic.selectOps,
+        DecodeLogic.BExp.eval, DecodeLogic.IExp.eval]
+  unfold DecodeLogic.srcDecide DecodeLogic.modelDecide sourcePieces
+  simp only [defs]
+  by_cases h0 : indent = 0
+  · simp [h0, Generated.rootCond, DecodeLogic.BExp.eval, DecodeLogic.IExp.eval]
+  · by_cases hov : indent - 1 ≥ len
+    · cases allow
+      · simp [h0, hov, Generated.rootCond, Generated.overCond, Generated.clampCond,
+          Generated.errorCond, DecodeLogic.BExp.eval, DecodeLogic.IExp.eval]
+      · by_cases hl0 : len = 0
+        · have h1i : 1 ≤ indent := by omega
+          simp [h0, hov, hl0, h1i, Generated.rootCond, Generated.overCond, Generated.clampCond,
+            Generated.errorCond, DecodeLogic.BExp.eval, DecodeLogic.IExp.eval]
+        · have hpos : 0 < len := by omega
+          have h1 : len - 1 < len := by omega
+          have h2 : 0 ≤ len - 1 := by omega
+          simp [h0, hov, hl0, hpos, h1, h2, Generated.rootCond, Generated.overCond,
+            Generated.clampCond, Generated.clampValue, Generated.parentIndex, DecodeLogic.BExp.eval,
+            DecodeLogic.IExp.eval, DecodeLogic.runOps, DecodeLogic.Op.run, DecodeLogic.finish] <;> omega
+    · have h1 : indent - 1 < len := by omega
+      have h2 : 0 ≤ indent - 1 := by omega
+      by_cases hc1 : indent ≥ len
+      · -- descending by one: append
+        have : indent = len := by omega
+        subst this
+        simp [h0, hov, h1, h2, Generated.rootCond, Generated.overCond, Generated.parentIndex,
+          DecodeLogic.BExp.eval, DecodeLogic.IExp.eval, DecodeLogic.runOps, DecodeLogic.Op.run,
+          DecodeLogic.finish] <;> omega
+      · by_cases hc2 : indent < len - 1
+        · -- back to a parent: truncate, then replace
+          have hb1 : indent + 1 ≤ len := by omega
+          have hb0 : 0 ≤ indent + 1 := by omega
+          have hb2 : indent < indent + 1 := by omega
+          simp [h0, hov, h1, h2, hc1, hc2, hb0, hb1, hb2, hi, Generated.rootCond, Generated.overCond,
+            Generated.parentIndex, DecodeLogic.BExp.eval, DecodeLogic.IExp.eval, DecodeLogic.runOps,
+            DecodeLogic.Op.run, DecodeLogic.finish] <;> omega
+        · -- same level: replace
+          have hb : indent < len := by omega
+          simp [h0, hov, h1, h2, hc1, hc2, hb, hi, Generated.rootCond, Generated.overCond,
+            Generated.parentIndex, DecodeLogic.BExp.eval, DecodeLogic.IExp.eval, DecodeLogic.runOps,
+            DecodeLogic.Op.run, DecodeLogic.finish]
+          have h1i : 1 ≤ indent := by omega
+          rw [if_pos h1i]
+          have he : len = indent + 1 := by omega
+          rw [he]
+
+/-- **… and it is the model's `place`.** On the numbers, the model's `place` is `modelDecide`:
+    same root / error / panic verdicts, and on success the open-node stack has exactly the number
+    of entries the source's `indents` slice has. -/
+theorem place_is_modelDecide (o : Opts) (s : St) (l : Line) :
+    match DecodeLogic.modelDecide l.level s.stack.length o.allowInvalidIndents with
+    | .root => ∃ s', place o s l = .next s' ∧ s'.stack.length = 1
+    | .error => place o s l = .error
+    | .panic => place o s l = .panic .indentTooLarge
+    | .place n _ _ => ∃ s', place o s l = .next s' ∧ (s'.stack.length : Int) = n
+    | .outOfBounds => False := by
+  unfold DecodeLogic.modelDecide place
+  by_cases h0 : l.level = 0
+  · have : ((l.level : Nat) : Int) = 0 := by simp [h0]
+    simp only [this, if_true, h0]
+    refine ⟨_, rfl, ?_⟩
+    have hlen : (trimTop s).stack.length = s.stack.length := by
+      rcases s with ⟨r, _ | ⟨f, fs⟩, sf⟩ <;> simp [trimTop]
+    simp [push, closeTo_len 0 (trimTop s) (by omega)]
+  · have hne : ((l.level : Nat) : Int) ≠ 0 := by simpa using h0
+    simp only [hne, if_false, h0]
+    by_cases hov : l.level - 1 ≥ s.stack.length
+    · have hov' : ((l.level : Nat) : Int) - 1 ≥ (s.stack.length : Int) := by omega
+      simp only [hov', if_true, hov]
+      cases ha : o.allowInvalidIndents
+      · simp
+      · simp only [if_true]
+        by_cases he : s.stack.isEmpty = true
+        · have : s.stack.length = 0 := by
+            cases hs : s.stack with
+            | nil => rfl
+            | cons a b => rw [hs] at he; simp at he
+          simp [he, this]
+        · have hpos : s.stack.length ≠ 0 := by
+            intro e; apply he
+            cases hs : s.stack with
+            | nil => rfl
+            | cons a b => rw [hs] at e; simp at e
+          have hpos' : (s.stack.length : Int) ≠ 0 := by omega
+          simp only [he, hpos', if_false]
+          refine ⟨_, rfl, ?_⟩
+          have hlen : (trimTop s).stack.length = s.stack.length := by
+            rcases s with ⟨r, _ | ⟨f, fs⟩, sf⟩ <;> simp [trimTop]
+          simp [push, hlen]
+    · have hov' : ¬ (((l.level : Nat) : Int) - 1 ≥ (s.stack.length : Int)) := by omega
+      simp only [hov', if_false, hov]
+      refine ⟨_, rfl, ?_⟩
+      have hlen : (trimTop s).stack.length = s.stack.length := by
+        rcases s with ⟨r, _ | ⟨f, fs⟩, sf⟩ <;> simp [trimTop]
+      have := closeTo_len l.level (trimTop s) (by omega)
+      simp [push, this]
 
 end Gedcom.C02
